@@ -13,6 +13,7 @@ use std::panic::{catch_unwind, AssertUnwindSafe};
 mod c01;
 mod c02;
 mod c07;
+mod c13;
 
 pub fn unhex(s: &str) -> Vec<u8> {
     if s == "-" {
@@ -41,6 +42,7 @@ fn run_case(line: &str) -> String {
     None.or_else(|| c01::dispatch(kind, &f))
         .or_else(|| c02::dispatch(kind, &f))
         .or_else(|| c07::dispatch(kind, &f))
+        .or_else(|| c13::dispatch(kind, &f))
         .unwrap_or_else(|| format!("UNKNOWN-KIND {kind}"))
 }
 
